@@ -489,6 +489,11 @@ func runShortWrite(c Case) (o hx.Outcome) {
 		}
 		if res.Err == "" {
 			o.Class("success")
+			if ls, e := desync.NewLocalStore(sdir, desync.StoreOptions{Uncompressed: c.Unc}); e == nil {
+				if readBackThrough(&o, p, fmt.Sprintf("LocalStore(unc=%v) under RLIMIT_FSIZE=%d", c.Unc, c.Fsize), ls, idx.Chunks, blob) > 0 {
+					o.Class("readback:desync-getchunk", "readback:local")
+				}
+			}
 			if certainFail {
 				o.Fail(p+"success-after-delivered-failure", "%s returned nil although %d needed chunk files are larger than RLIMIT_FSIZE=%d (uncompressed store: their writes were cut short)", op, tooBig, c.Fsize)
 			}
